@@ -170,17 +170,24 @@ def same_ring(a, b, tol):
     return False
 
 
-def run_sorter(name, param, page, ctx, gray=False):
+_SORTERS = {}
+
+
+def run_sorter(name, param, page, ctx, gray=False, shared=False):
     import configparser
     from pero_ocr.layout_engines.smart_sorter import SmartRegionSorter
     from pero_ocr.layout_engines.naive_sorter import NaiveRegionSorter
     cfg = configparser.ConfigParser()
-    if name == 'smart':
+    if shared and (name, param) in _SORTERS:
+        sorter = _SORTERS[(name, param)]
+    elif name == 'smart':
         cfg['S'] = {'FakeIntersectionParameter': str(param)}
         sorter = SmartRegionSorter(cfg['S'])
     else:
         cfg['S'] = {'ImageWidthDenominator': str(param)}
         sorter = NaiveRegionSorter(cfg['S'])
+    if shared:
+        _SORTERS[(name, param)] = sorter
     img = np.zeros((100, 1000, 3), dtype=np.uint8) if not gray else np.zeros((100, 1000), dtype=np.uint8)
     old = sys.getrecursionlimit()
     sys.setrecursionlimit(400)
@@ -267,6 +274,21 @@ def check_case(case, ctx):
         if bad:
             ctx.violation('regions-intact', f'{K}/region-content-changed', f'{desc}: {bad}', sub)
             continue
+        # history: a sorter object that has sorted many other pages before orders this page like a fresh one
+        if len(polygons) >= 2 and len(polygons) <= 3:
+            try:
+                out2 = run_sorter(name, param, build_page(polygons, skew, case.get('lv', 0), ints=bool(case.get('ints'))), ctx,
+                                  gray=bool(case.get('gray')), shared=True)
+                order2 = [r.id for r in out2.regions]
+            except CaseTimeout:
+                order2 = 'no result within 5 s'
+            except Exception as e:  # noqa
+                order2 = f'{type(e).__name__}: {e}'
+            ctx.executed()
+            if order2 != [s[1] for s in after]:
+                ctx.violation('exactly-the-input-regions-each-once', f'{K}/long-lived-sorter-differs-from-a-fresh-one',
+                              f'{desc}: a fresh sorter orders the regions {[s[1] for s in after]}, one that has sorted other pages before: {order2}', sub)
+                continue
         ctx.outcome((name, tuple(s[1] for s in after)))
         if [s[1] for s in after] != [s[1] for s in before]:
             ctx.nontrivial((what, skew, name, param), 'order-actually-changed')
